@@ -45,7 +45,7 @@ def main():
     if '--tier' in args: tier = args[args.index('--tier') + 1]
     seed = int(os.environ.get('VERIF_SEED', '0') or 0)
     t0 = time.time()
-    evid_path = os.path.join(VERIF, 'evidence', prop + '.json')
+    evid_path = os.path.join(os.environ.get('VERIF_EVIDENCE_DIR') or os.path.join(VERIF, 'evidence'), prop + '.json')   # (the override is used only by the seeded-change self-tests)
     os.makedirs(os.path.dirname(evid_path), exist_ok=True)
     if os.path.exists(evid_path): os.remove(evid_path)
     os.makedirs(yrun.WORK, exist_ok=True)
@@ -80,6 +80,21 @@ def main():
         known, fixed = load_known()
         for (cpath, job, spec, sp), r in zip(todo, results):
             r['spec'] = os.path.basename(sp)
+            if r['status'] == 'error' and job.get('fallback_unwind') and ('goto-cc failed' in r.get('detail', '') or 'goto-instrument failed' in r.get('detail', '')):
+                # the proof script (loop contract text) no longer compiles against the extracted code: decide the function contract
+                # without it, by complete unwinding (DESIGN 3.5-2); a counterexample found this way is a real one
+                fj = dict(job); fj['name'] = job['name'] + '.fallback'; fj['loops'] = '0'; fj['unwind'] = job['fallback_unwind']
+                fj['defs'] = ','.join([x for x in job.get('defs', '').split(',') if x] + ['Y_NO_LOOP_CONTRACTS'] + [x for x in job.get('fallback_defs', '').split(';') if x])
+                fj['backend'] = f"full-unwind({job['fallback_unwind']}) fallback: loop contract does not compile against the extracted code"
+                if job.get('fallback_stub'): fj['stub'] = job['fallback_stub']; fj.pop('replace', None)
+                fb = yrun.run_job(cpath, fj, outdir, tier); fb['spec'] = r['spec']; results.append(fb)
+                if fb['status'] == 'failed':
+                    for f in fb['failed']: violations.append((fb, f, fj, spec, cpath))
+                    continue
+                if fb['status'] == 'ok':
+                    r['status'] = 'stale-proof-script'; r['note'] = 'loop contract does not compile; contract re-proved by full unwinding'
+                    continue
+                undecided.append(f"{r['spec']}:{r['job']}: fallback {fb['status']}: {fb.get('detail', '')[:300]}"); continue
             if r['status'] in ('error', 'timeout'):
                 undecided.append(f"{r['spec']}:{r['job']}: {r['status']}: {r.get('detail', '')[:400]}"); continue
             if r['status'] == 'failed':
@@ -128,13 +143,14 @@ def finish(prop, tier, seed, t0, evid_path, results, violations, undecided, know
                             'status': o['status'], 'backend': r.get('backend'), 'job_seconds': round(r.get('seconds', 0), 2)})
     samples = samples[:60]
     viol_lines = []
-    os.makedirs(os.path.join(VERIF, 'replay'), exist_ok=True)
+    REPLAY_DIR = os.environ.get('VERIF_REPLAY_DIR') or os.path.join(VERIF, 'replay')
+    os.makedirs(REPLAY_DIR, exist_ok=True)
     seen = set()
     for (r, f, job, spec, cpath) in violations:
         key = (r['job'], f['name'])
         if key in seen: continue
         seen.add(key)
-        rp = os.path.join(VERIF, 'replay', f"{prop}-{r['job']}-{re.sub(r'[^A-Za-z0-9_.]', '_', f['name'] or 'x')}.json")
+        rp = os.path.join(REPLAY_DIR, f"{prop}-{r['job']}-{re.sub(r'[^A-Za-z0-9_.]', '_', f['name'] or 'x')}.json")
         confirmed, rinfo = replay.try_replay(prop, r, f, job, spec, cpath, outdir)
         json.dump({'property': prop, 'unit': r.get('spec'), 'job': r['job'], 'failed_obligation': f['name'], 'description': f['desc'],
                    'emitted_line': f['line'], 'function': f['function'], 'verifier_cmds': r['cmds'], 'verifier_trace': f.get('trace', [])[-200:],
